@@ -100,7 +100,7 @@ func findFunc(rel, recv, name string) *ast.FuncDecl {
 			r = recvName(fd.Recv.List[0].Type)
 		}
 		if r == recv {
-			return inlineHelpers(rel, fd)
+			return normaliseChanged(rel, fd, inlineHelpers(rel, fd))
 		}
 	}
 	fail("%s: no func %s.%s", rel, recv, name)
